@@ -43,7 +43,7 @@ Proof.
   assert (Hd : length dd = length defaults).
   { unfold dd. destruct r as [x|t an [v|]]; try reflexivity.
     destruct (idx_of t args (start_idx args)); [|reflexivity].
-    destruct ((Z.of_nat (length defaults) >? z)%Z && negb (none_text v)); [apply list_set_length | reflexivity]. }
+    destruct ((Z.of_nat (length defaults) >? z)%Z); [apply list_set_length | reflexivity]. }
   destruct (replace_arg loc search (repl_as_arg r) args) as [args1 b1] eqn:E1.
   destruct b1.
   - intro H. injection H as <- <- <- <-. repeat split; [eapply replace_arg_length; eauto | exact Hd].
@@ -61,7 +61,7 @@ Proof.
   assert (Hd : match r with
                | RAnn t _ (Some v) =>
                    match idx_of t args (start_idx args) with
-                   | Some idx => if (Z.of_nat (length defaults) >? idx)%Z && negb (none_text v) then list_set defaults idx v else defaults
+                   | Some idx => if (Z.of_nat (length defaults) >? idx)%Z then list_set defaults idx v else defaults
                    | None => defaults
                    end
                | _ => defaults
